@@ -320,6 +320,14 @@ func genC31(rt *rapid.T) (dcase, []drun) {
 				b.sources = []int{pool[rapid.IntRange(0, len(pool)-1).Draw(rt, "p")]}
 			}
 		}
+		// a source list may name an id more than once (nothing normalises meta.json files read from the
+		// bucket); the oracle works on sets, so repeats must not change any verdict
+		if rapid.IntRange(0, 5).Draw(rt, "repeatSources") == 0 {
+			for k := rapid.IntRange(1, 2).Draw(rt, "repeats"); k > 0; k-- {
+				b.sources = append(b.sources, b.sources[rapid.IntRange(0, len(b.sources)-1).Draw(rt, "repeatIdx")])
+			}
+			c.repeated = true
+		}
 		if len(b.sources) > 1 {
 			b.sources = rapid.Permutation(b.sources).Draw(rt, "srcOrder")
 		}
@@ -393,6 +401,9 @@ func TestVerifC31(t *testing.T) {
 				classes = append(classes, "reused-filter")
 				break
 			}
+		}
+		if c.repeated {
+			classes = append(classes, "repeated-source-ids")
 		}
 		rec.Case(c.render(), hidden > 0 && partial, classes...)
 	})
